@@ -404,6 +404,7 @@ func (s *Server) EstablishConnection(listener string, c net.Conn) error {
 // attachClient validates an incoming client connection and if viable, attaches the client
 // to the server, performs session housekeeping, and reads incoming packets.
 func (s *Server) attachClient(cl *Client, listener string) error {
+	verifPoint("attach.handler_start", "")
 	defer s.Listeners.ClientsWg.Done()
 	s.Listeners.ClientsWg.Add(1)
 
@@ -416,6 +417,7 @@ func (s *Server) attachClient(cl *Client, listener string) error {
 	}
 
 	cl.ParseConnect(listener, pk)
+	verifPoint("attach.limit_check", cl.ID)
 	if atomic.LoadInt64(&s.Info.ClientsConnected) >= s.Options.Capabilities.MaximumClients {
 		if cl.Properties.ProtocolVersion < 5 {
 			s.SendConnack(cl, packets.ErrServerUnavailable, false, nil)
@@ -426,6 +428,7 @@ func (s *Server) attachClient(cl *Client, listener string) error {
 		return packets.ErrServerBusy
 	}
 
+	verifPoint("attach.limit_checked", cl.ID)
 	code := s.validateConnect(cl, pk) // [MQTT-3.1.4-1] [MQTT-3.1.4-2]
 	if code != packets.CodeSuccess {
 		if err := s.SendConnack(cl, code, false, nil); err != nil {
@@ -456,12 +459,14 @@ func (s *Server) attachClient(cl *Client, listener string) error {
 
 	sessionPresent := s.inheritClientSession(pk, cl)
 	s.Clients.Add(cl) // [MQTT-4.1.0-1]
+	verifPoint("attach.registered", cl.ID)
 
 	err = s.SendConnack(cl, code, sessionPresent, nil) // [MQTT-3.1.4-5] [MQTT-3.2.0-1] [MQTT-3.2.0-2] &[MQTT-3.14.0-1]
 	if err != nil {
 		return fmt.Errorf("ack connection packet: %w", err)
 	}
 
+	verifPoint("attach.connack_sent", cl.ID)
 	s.loop.willDelayed.Delete(cl.ID) // [MQTT-3.1.3-9]
 
 	if sessionPresent {
@@ -474,6 +479,7 @@ func (s *Server) attachClient(cl *Client, listener string) error {
 	s.hooks.OnSessionEstablished(cl, pk)
 
 	err = cl.Read(s.receivePacket)
+	verifPoint("attach.read_returned", cl.ID)
 	if err != nil {
 		s.sendLWT(cl)
 		cl.Stop(err)
@@ -482,6 +488,7 @@ func (s *Server) attachClient(cl *Client, listener string) error {
 	}
 	s.Log.Debug("client disconnected", "error", err, "client", cl.ID, "remote", cl.Net.Remote, "listener", listener)
 
+	verifPoint("attach.before_cleanup", cl.ID)
 	expire := (cl.Properties.ProtocolVersion == 5 && cl.Properties.Props.SessionExpiryInterval == 0) || (cl.Properties.ProtocolVersion < 5 && cl.Properties.Clean)
 	s.hooks.OnDisconnect(cl, err, expire)
 
@@ -562,6 +569,7 @@ func (s *Server) validateConnect(cl *Client, pk packets.Packet) packets.Code {
 func (s *Server) inheritClientSession(pk packets.Packet, cl *Client) bool {
 	if existing, ok := s.Clients.Get(cl.ID); ok {
 		_ = s.DisconnectClient(existing, packets.ErrSessionTakenOver)                                   // [MQTT-3.1.4-3]
+		verifPoint("inherit.existing_disconnected", cl.ID)
 		if pk.Connect.Clean || (existing.Properties.Clean && existing.Properties.ProtocolVersion < 5) { // [MQTT-3.1.2-4] [MQTT-3.1.4-4]
 			s.UnsubscribeClient(existing)
 			existing.ClearInflights()
@@ -1538,6 +1546,7 @@ func (s *Server) sendLWT(cl *Client) {
 	if cl.Properties.Will.WillDelayInterval > 0 {
 		pk.Connect.WillProperties.WillDelayInterval = cl.Properties.Will.WillDelayInterval
 		pk.Expiry = time.Now().Unix() + int64(pk.Connect.WillProperties.WillDelayInterval)
+		verifPoint("lwt.before_register", cl.ID)
 		s.loop.willDelayed.Add(cl.ID, pk)
 		return
 	}
